@@ -19,10 +19,13 @@ Inductive top : Type :=
     of calls a sort makes is the standard library's business) or was not called that often *)
 | OSortFuse (variant : nat) (line : N) (k : N) (fired : bool) (sigma : list nat)
 | OSetCell (c r x : N)
-| OSetRowCell (c r x : N).
+| OSetRowCell (c r x : N)
+(** clone_from_slice ([td] = false; the source is [cells]) / clone_from_toodee ([td] = true; an
+    [sc] x [sr] source) over elements whose k-th [Clone] call panics (C11) *)
+| OCloneFuse (td : bool) (sc sr : nat) (cells : list N) (k : N).
 
 Record ocase : Type := mkOCase {
-  oc_dbg : bool; oc_kind : nat; oc_zst : bool; oc_big : bool; oc_C : nat; oc_R : nat; oc_win : N * N * N * N;
+  oc_dbg : bool; oc_kind : nat; oc_zst : bool; oc_big : bool; oc_trk : bool; oc_C : nat; oc_R : nat; oc_win : N * N * N * N;
   oc_data : list N; oc_op : top;
 }.
 
@@ -47,6 +50,7 @@ Definition p_top : parser top :=
   | 17 => v <~ p_nat ;; l <~ p_N ;; k <~ p_N ;; f <~ p_bool ;; s <~ p_list p_nat ;; p_ret (OSortFuse v l k f s)
   | 15 => a <~ p_N ;; b <~ p_N ;; c <~ p_N ;; p_ret (OSetCell a b c)
   | 16 => a <~ p_N ;; b <~ p_N ;; c <~ p_N ;; p_ret (OSetRowCell a b c)
+  | 18 => td <~ p_bool ;; _strided <~ p_bool ;; c <~ p_nat ;; r <~ p_nat ;; s <~ p_list p_N ;; k <~ p_N ;; p_ret (OCloneFuse td c r s k)
   | _ => p_fail
   end.
 
@@ -55,7 +59,8 @@ Definition p_ocase : parser ocase :=
   s0 <~ p_N ;; s1 <~ p_N ;; e0 <~ p_N ;; e1 <~ p_N ;;
   d <~ p_list p_N ;; o <~ p_top ;;
   (* kind + 10: zero-sized elements; kind + 20: 328-byte elements carrying the same values *)
-  p_ret (mkOCase dbg (k mod 10) ((10 <=? k) && (k <? 20)) (20 <=? k) C R (s0, s1, e0, e1) d o).
+  (* kind + 30: drop-tracked elements (obs: outcome, buffer, double drops, leaked) *)
+  p_ret (mkOCase dbg (k mod 10) ((10 <=? k) && (k <? 20)) ((20 <=? k) && (k <? 30)) (30 <=? k) C R (s0, s1, e0, e1) d o).
 
 Definition oc_receiver (c : ocase) : res (rkind * view) :=
   let parent := view_of_owned (oc_C c) (oc_R c) (oc_C c * oc_R c) in
@@ -115,6 +120,10 @@ Definition run_top (dbg : bool) (k : rkind) (v : view) (b : buf) (o : top) : res
       else if sort_is_col var
       then only (op_sort_by_col k v b line (sort_is_stable var) (sort_by_key var) sigma)
       else only (op_sort_by_row v b line (sort_is_stable var) (sort_by_key var) sigma)
+  | OCloneFuse td sc sr cells _ =>
+      (* the completed call; a firing fuse is handled by [clone_fuse_model] *)
+      if td then only (op_copy_from_toodee k v b (sc, sr) (chunks sr sc cells))
+      else only (op_copy_from_slice k v b cells)
   | OSetCell c r x => i <- v_index_coord v c r ;; only (Ok (upd i x b))
   | OSetRowCell c r x =>
       w <- v_index_row v r ;;
@@ -130,12 +139,37 @@ Definition wide_copy_within (dbg : bool) (v : view) (b : buf) (o : top) : option
   | _ => None
   end.
 
+(** [Some (Ok (panicked, buffer))] for a clone operation over fused elements: sizes that do
+    not match panic before the first clone; otherwise the k-th clone panics when there are
+    that many cells, leaving the first k cells cloned and the rest as they were *)
+Definition clone_fuse_model (dbg : bool) (k : rkind) (v : view) (b : buf) (o : top) : option (res (bool * buf)) :=
+  match o with
+  | OCloneFuse td sc sr cells kf =>
+      Some (match run_top dbg k v b o with
+            | Ok (_, b') =>
+                let pos := recv_cells v in
+                if (kf <? N.of_nat (length pos))%N then
+                  Ok (true, partial_clone b b' pos (N.to_nat kf))
+                else Ok (false, b')
+            | Panic => Ok (true, b)
+            | UB => UB
+            end)
+  | _ => None
+  end.
+
 Definition ops_model (inp : list N) : list N :=
   match run_parser p_ocase inp with
   | None => BAD_CASE
   | Some c =>
       match oc_receiver c with
       | Ok (k, v) =>
+          match clone_fuse_model (oc_dbg c) k v (oc_data c) (oc_op c) with
+          | Some (Ok (panicked, b')) =>
+              (* no element dropped twice, none leaked: the model of the code as it is *)
+              (if panicked then 0%N else 1%N) :: e_Nlist b' ++ [0%N; 0%N]
+          | Some Panic => [777770%N]
+          | Some UB => [777771%N]
+          | None =>
           match wide_copy_within (oc_dbg c) v (oc_data c) (oc_op c) with
           | Some (Ok (panicked, b')) =>
               let ok := if panicked then 0%N else 1%N in
@@ -150,6 +184,7 @@ Definition ops_model (inp : list N) : list N :=
                               else 1%N :: extra ++ e_Nlist b'
           | Panic => if oc_zst c then [0%N; N.of_nat (length (oc_data c))] else 0%N :: e_Nlist (oc_data c)
           | UB => [777771%N]
+          end
           end
           end
       | _ => [777770%N]
